@@ -1013,6 +1013,9 @@ func (g *gen) evaluate(c *e2eCase) verdict {
 	if c.timedOut {
 		return verdict{"violation", "", "rdfkit pipe did not finish within 30 s: " + c.describe(), "timeout"}
 	}
+	if strings.HasPrefix(c.predDec, "panic:") || strings.HasPrefix(c.predEnc, "panic:") {
+		return verdict{"violation", "", "the registry code panics when called in-process (" + c.predDec + " / " + c.predEnc + "): " + c.describe(), "registry-panic"}
+	}
 	if c.predDec == "-" || c.predEnc == "-" || strings.HasPrefix(c.predDec, "error:") || strings.HasPrefix(c.predEnc, "error:") {
 		if c.exit == 0 {
 			return verdict{"violation", "", "the registry resolves no type (" + c.predDec + "/" + c.predEnc + ") but the command succeeded: " + c.describe(), "unresolved-but-ok"}
@@ -1154,7 +1157,9 @@ func (g *gen) evaluate(c *e2eCase) verdict {
 			src := rawLabels(c.src.body)
 			for l := range labels {
 				if _, ok := src[l]; !ok {
-					return verdict{"violation", "", fmt.Sprintf("label %q of the output does not occur in the source (labels must pass through) — %s", l, c.describe()), "label-passthrough"}
+					// not a violation of the property (labels are free) but of the modelled mechanism: the model hands
+					// the labels of the decoding factory through (pipe_labels_injective, σ (bnString j v) = v)
+					return verdict{"disagreement", "", fmt.Sprintf("label %q of the output does not occur in the source: the model hands source labels through (PropagateDecoderPipeBlankNodeStringProvider) — %s", l, c.describe()), "label-passthrough"}
 				}
 			}
 		}
@@ -1226,7 +1231,7 @@ func (g *gen) e2e(n int) {
 			g.knownSeen[v.key]++
 			g.rep.Count("e2e:known:" + v.key)
 		}
-		if v.kind == "violation" || (v.kind == "known" && g.knownSeen[v.key] <= 3) {
+		if v.kind == "violation" || v.kind == "disagreement" || (v.kind == "known" && g.knownSeen[v.key] <= 3) {
 			op := "rdfkit " + strings.Join(caseArgs(c), " ")
 			doc := string(c.src.body)
 			if len(doc) > 1500 {
